@@ -1073,6 +1073,10 @@ func (r *messageReader) Read(b []byte) (int, error) {
 			if c.readRemaining > 0 && c.readErr == io.EOF {
 				c.readErr = errUnexpectedEOF
 			}
+			if !c.readFinal && c.readErr == io.EOF {
+				// EOF at the end of a non-final frame: the message is incomplete.
+				c.readErr = errUnexpectedEOF
+			}
 			return n, c.readErr
 		}
 
